@@ -143,6 +143,47 @@ func (g *gen) enumerate() []Case {
 		}
 	}
 
+	// ---- variables named like template functions: alone and under every kind of operator
+	fs := func(x string) Expr { return ls(x, "s") }
+	addFn := func(e Expr) {
+		ec := e
+		if c, ok := g.finishExpr(Case{Fam: "expr", Env: fnEnv, E: &ec}); ok {
+			out = append(out, c)
+		}
+	}
+	for _, x := range append(append([]string{}, fnIntPaths...), fnStringPaths...) {
+		addFn(p(x))
+		out = append(out, g.negCase(fnEnv, x))
+	}
+	for _, x := range fnStringPaths {
+		for _, e := range []Expr{
+			{K: "tern", A: []Expr{bin("==", p(x), fs("x")), fs("Y"), fs("N")}},
+			{K: "tern", A: []Expr{bin("==", p(x), ls("Hello", "d")), p(x), ls("N", "d")}},
+			bin("==", p(x), ls("post", "d")), bin("!=", p(x), p("s")), bin("<", p(x), p("h")),
+			bin("+", p(x), ls("x", "d")), bin("+", p("s"), p(x)),
+			bin("&&", bin("!=", p(x), fs("")), p("t")),
+			call("upper", p(x)), bin("==", call("upper", p(x)), ls("HELLO", "d")), call("greet", p(x)),
+		} {
+			addFn(e)
+		}
+	}
+	for _, x := range fnIntPaths {
+		for _, e := range []Expr{
+			bin("+", p(x), li("1")), bin("-", p("a"), p(x)), bin("*", p(x), p(x)), bin("%", p("a"), bin("+", p(x), li("1"))), bin("/", p(x), li("2")),
+			bin(">", p(x), li("2")), bin("==", p(x), p("b")), bin("<=", p(x), p(x)),
+			bin("*", p(x), lf("0.5")),
+			{K: "tern", A: []Expr{bin(">", p(x), li("0")), p(x), li("7")}},
+			{K: "not", A: []Expr{bin(">", p(x), li("1"))}},
+			call("add", p(x), li("1")), call("isBig", p(x)), bin("&&", call("isBig", p(x)), p("t")),
+		} {
+			addFn(e)
+		}
+	}
+	addFn(bin("+", p("len"), p("string")))
+	addFn(bin("==", p("title"), p("type")))
+	addFn(bin("+", bin("+", p("title"), p("default")), p("type")))
+	addFn(bin("||", bin("==", p("type"), fs("post")), bin(">", p("int"), p("len"))))
+
 	// ---- pipes: every function x every admissible source of every argument
 	env := envOf(0)
 	srcs := map[string][]Arg{
